@@ -526,6 +526,11 @@ func performIDPRequest(log telemetry.Logger, client *http.Client, uri string, fo
 		log.Error("error unmarshalling tokens response", err)
 		return nil, codes.Internal
 	}
+	if bodyTokens == nil {
+		// a JSON "null" body decodes without error into a nil pointer
+		log.Error("error unmarshalling tokens response", errors.New("empty tokens response"))
+		return nil, codes.Internal
+	}
 
 	return bodyTokens, codes.OK
 }
